@@ -852,6 +852,11 @@ package hashgraph
 //@   loop 5 invariant[voters] forall k int :: 0 <= k && k < len(ssWitnesses) ==> SSV(h, y, ssWitnesses[k], PSHexOf(jPrevPeerSet)) && DecidedOrWit(jPrevRoundInfo, ssWitnesses[k])
 //@   loop 6 invariant[tally] yays + nays == __idx() && yays == __countseq(ssWitnesses, __idx(), func(w string) bool { return __in(w, votes) && __in(x, votes[w]) && votes[w][x] })
 
+// A new hashgraph starts with six separate, empty memo caches: MemoOK holds initially.
+//@ func NewHashgraph(store Store, commitCallback InternalCommitCallback, logger *logrus.Entry) *Hashgraph
+//@   modifies any logrus.Logger.Level
+//@   ensures[memo] ret0 != nil && __fresh(ret0) && ret0.MemoOK() && ret0.Store == store
+
 // The consensus pipeline runs in this order after a successful insertion, each stage only after the previous
 // one succeeded; a rejected event runs none of them.
 //@ func (h *Hashgraph) InsertEventAndRunConsensus(event *Event, setWireInfo bool) error
